@@ -734,11 +734,20 @@ def check_gp(case):
   # fit, cheap).  R2 is NOT judged on the model-based call: with an optimum
   # on the boundary of the space all seeds may legitimately return the same
   # clipped point.
-  seed_run = dict(run, prior=[], steps=[{'count': 9, 'fb': []}])
-  seed_item = {'kind': 'stream', 'run': seed_run}
-  sfirst = _pairs(out, 'R1_seed_phase', seed_item, case['envs'])
-  _r2(out, 'R2/seed_ignored', seed_item, case['seeds'], case['envs']['a'],
-      first=sfirst)
+  # Cheap, so done for every entry point of the class and also with seed 0.
+  entries = ('ctor', 'from_problem') if run['designer'] in HAS_FROM_PROBLEM \
+      else ('ctor',)
+  for entry in entries:
+    seed_run = dict(run, entry=entry, prior=[],
+                    steps=[{'count': 9, 'fb': []}])
+    seed_item = {'kind': 'stream', 'run': seed_run}
+    sfirst = _pairs(out, 'R1_seed_phase', seed_item, case['envs'])
+    _r2(out, 'R2/seed_ignored', seed_item, case['seeds'], case['envs']['a'],
+        first=sfirst)
+    if run['seed'] != 0:
+      _pairs(out, 'R1_seed_phase', {'kind': 'stream',
+                                    'run': dict(seed_run, seed=0)},
+             case['envs'])
   out.nontrivial = nt and not first.get('error')
   return out
 
@@ -751,8 +760,8 @@ def families(tier):
   return [
       # one example per shard in the expensive families: see _not_simplest
       core.Family('gp', check_gp, strategy=gp_strategy,
-                  budget={'quick': 8, 'thorough': 48},
-                  shards={'quick': 8, 'thorough': 48},
+                  budget={'quick': 8, 'thorough': 40},
+                  shards={'quick': 8, 'thorough': 40},
                   required_classes=('gp_bandit', 'gp_ucb_pe',
                                     'model_based_suggest_answered',
                                     'r2_judged'),
@@ -763,14 +772,14 @@ def families(tier):
                   required_classes=('gp_bandit', 'gp_ucb_pe'),
                   max_shrink_s={'quick': 120, 'thorough': 300}),
       core.Family('xproc', check_xproc, strategy=xproc_strategy,
-                  budget={'quick': 16, 'thorough': 240},
+                  budget={'quick': 16, 'thorough': 200},
                   shards={'quick': 16, 'thorough': 16},
                   required_classes=lib.CHEAP + (
                       'item_stream', 'item_bench',
                       'two_or_more_parameter_names'),
                   max_shrink_s={'quick': 60, 'thorough': 240}),
       core.Family('cheap', check_cheap, strategy=cheap_strategy,
-                  budget={'quick': 1200, 'thorough': 30000},
+                  budget={'quick': 1200, 'thorough': 20000},
                   shards={'quick': 8, 'thorough': 16},
                   required_classes=lib.CHEAP + (
                       'seed_0', 'history_nonempty', 'foreign_prior_history',
@@ -778,13 +787,13 @@ def families(tier):
                       'nsga2_mutation_phase', 'eagle_pool_full_expected',
                       'cmaes_generation_update')),
       core.Family('seeds', check_seeds, strategy=seeds_strategy,
-                  budget={'quick': 400, 'thorough': 8000},
+                  budget={'quick': 400, 'thorough': 5000},
                   shards={'quick': 8, 'thorough': 16},
                   required_classes=lib.CHEAP + (
                       'r2_judged', 'seed_0_among_seeds',
                       'grid_unshuffled_reference_judged')),
       core.Family('bench', check_bench, strategy=bench_strategy,
-                  budget={'quick': 400, 'thorough': 8000},
+                  budget={'quick': 400, 'thorough': 6000},
                   shards={'quick': 4, 'thorough': 16},
                   required_classes=lib.CHEAP + (
                       'exptr_branin', 'exptr_bbob', 'exptr_simplekd',
